@@ -347,7 +347,12 @@ def layout_files(g, rng, focus=False):
         for r in rules:
             if "\r" in r["params"].get("ws", ""):
                 r["params"]["ws"] = r["params"]["ws"].replace("\r", "\\r")
-    cuts = sorted(1 + rng.below(n) for _ in range(nimp))
+    # a file cannot use rules of a file that imports it: cut only where no later rule refers back ('(' Model ')' ...);
+    # a cut behind the last rule (an imported file with nothing but its Comment rule) is always possible
+    index = {r["name"]: i for i, r in enumerate(rules)}
+    back = [min([index[nm] for nm in expr_refs(r["body"], set()) if nm in index] + [i]) for i, r in enumerate(rules)]
+    valid = [c for c in range(1, n + 1) if all(b >= c for b in back[c:])]
+    cuts = sorted(rng.choice(valid) for _ in range(nimp))
     bounds = [0] + cuts + [n]
     segs = [rules[a:b] for a, b in zip(bounds, bounds[1:])]
     names = ["main"] + list(rng.choice(IMPORT_NAMES))[:nimp]
@@ -393,7 +398,7 @@ def layout_files(g, rng, focus=False):
             tag = "MAB"[i]
             body += render_comment(kind, regs, tag)
             defines += ["Comment"] + {"plain": [], "alias": [f"Cmt{tag}"], "alts": [f"Cmt{tag}a", f"Cmt{tag}b"]}[kind]
-        if not body.strip() and not head:
+        if not body.strip():    # a grammar file needs at least one rule
             body = f"Unused{i}: 'zz';\n"
             defines.append(f"Unused{i}")
         texts.append(head + body)
